@@ -17,6 +17,7 @@ from vlib import monitors
 
 PROP = 'C10'
 TITLE = 'i18n message ids, mappings, context'
+DEBUG_SHARDS = True      # two of sixteen shards run the library in its debug mode (vlib/runner.py)
 LEVEL = 'exploration'
 SHARDS = {'quick': 16, 'thorough': 16}
 FLOOR = {'quick': 1000, 'thorough': 15000}
